@@ -1,3 +1,2 @@
 import PieModel.Props.C07
-open PieModel
-#print axioms C07_placeholder
+#print axioms PieModel.C07_placeholder
